@@ -214,6 +214,10 @@ def main(tier_, replay=None):
             s = execgen.hand_abstract_schema()
             cases = handwritten_cases(rng, execgen.HAND_ABSTRACT_QUERIES[:3] + execgen.HAND_ABSTRACT_QUERIES[4:6])
             cases = cases + [dict(c, oracle_seed=rng.randrange(1 << 30)) for c in cases[:3]]
+            # a list field selected again inside its own sub-selection (every configuration, the sequential list
+            # coercion included): own generator, the stream above is not touched
+            r3 = random.Random(seed * 4099 + 8)
+            cases += handwritten_cases(r3, [q for q in execgen.HAND_ABSTRACT_QUERIES if "more { x more" in q[0]])
         elif si == 0:
             s = handwritten_schema()
             cases = asyncio.run(fault_variants(s, handwritten_cases(rng, HAND_QUERIES), rng, 3 if tier_ == "quick" else 10))
